@@ -109,10 +109,12 @@ theorem src_binomialGA (x m : List Int) (cr : Int) (us : List Int) (j : Nat) (re
 
 theorem src_uniform_crossover (ps : List (List Int)) (fit rank : List Int) (ch : List Nat)
     (hne : ps ≠ []) (hrows : ∀ r ∈ ps, r.length = (ps.headD []).length)
-    (hlen : ch.length = (ps.headD []).length) (hch : ∀ c ∈ ch, c < ps.length) :
-    uniform_crossover ps fit rank (ch.map Int.ofNat) = some (BinOps.uniformX ps ch) := by
+    (hlen : ch.length = (ps.headD []).length) (hch : ∀ c ∈ ch, c < ps.length)
+    (sampler : Int → Int → Bool → Nat → List Int)
+    (hsm : sampler (fit.length : Int) ((ps.headD []).length : Int) true 0 = ch.map Int.ofNat) :
+    uniform_crossover ps fit rank sampler = some (BinOps.uniformX ps ch) := by
   unfold uniform_crossover
-  simp only [leni, getrow_zero]
+  simp only [leni, getrow_zero, hsm]
   generalize hL : (ps.headD []).length = L at *
   generalize hA : BinOps.uniformX ps ch = A
   have hAlen : A.length = (List.replicate L (0 : Int)).length := by
@@ -162,8 +164,10 @@ theorem onePoint_model (a b : List Int) (more : List (List Int)) (cut : Nat) (co
     simp [List.getD_eq_getElem?_getD, hk]
 
 theorem src_one_point_crossover (a b : List Int) (more : List (List Int)) (fit rank : List Int)
-    (cut : Nat) (srest : List Int) (key u : Int) (urest : List Int) (hab : b.length = a.length) :
-    one_point_crossover (a :: b :: more) fit rank ((cut : Int) :: srest) key (u :: urest) =
+    (cut : Nat) (srest : List Int) (key u : Int) (urest : List Int) (hab : b.length = a.length)
+    (sampler : Int → Int → Bool → Nat → List Int)
+    (hsm : sampler (a.length : Int) 1 true 0 = (cut : Int) :: srest) :
+    one_point_crossover (a :: b :: more) fit rank key (u :: urest) sampler =
       some (BinOps.onePoint (a :: b :: more) cut (decide (u < key))) := by
   unfold one_point_crossover
   have g0 : ∀ (x : Int) l, geti (x :: l) ((0 : Nat) : Int) = x := fun _ _ => rfl
@@ -177,7 +181,7 @@ theorem src_one_point_crossover (a b : List Int) (more : List (List Int)) (fit r
   generalize BinOps.onePoint (a :: b :: more) cut (decide (u < key)) = A at hAlen hAget ⊢
   by_cases hc : u < key
   · simp only [hc, decide_true, if_true] at hAget
-    simp only [g0, g0', r0, r1, hc, decide_true, if_true, leni]
+    simp only [g0, g0', r0, r1, hc, decide_true, if_true, leni, hsm]
     refine forRange_elim
       (P := fun k (s : one_point_crossover.S) => s.brk = false ∧ s.err = false ∧ s.dry = false ∧
         s.cross_point = (cut : Int) ∧ s.offspring = A.take k ++ a.drop k)
@@ -201,14 +205,14 @@ theorem src_one_point_crossover (a b : List Int) (more : List (List Int)) (fit r
     · intro s ⟨_, he, hd, _, ht⟩
       simp [he, hd, ht, ← hAlen]
   · simp only [hc, decide_false, Bool.false_eq_true, if_false] at hAget
-    simp only [g0, g0', r0, r1, hc, decide_false, Bool.false_eq_true, if_false, leni]
+    simp only [g0, g0', r0, r1, hc, decide_false, Bool.false_eq_true, if_false, leni, hsm]
     have hAlen' : A.length = b.length := by omega
     refine forRange_elim
       (P := fun k (s : one_point_crossover.S) => s.brk = false ∧ s.err = false ∧ s.dry = false ∧
         s.cross_point = (cut : Int) ∧ s.offspring = A.take k ++ b.drop k)
       (Q := fun s => (if (s.err || s.dry) = true then none else some s.offspring) = some A)
       _ _ _ _ _ ?_ ?_ ?_
-    · simp [i1, i2]
+    · simp [i0, i1, i2]
     · intro k s hk ⟨hb, he, hd, hcp, ht⟩
       have hk' : k < a.length := by simpa using hk
       have hk'' : k < b.length := by omega
@@ -254,8 +258,10 @@ theorem twoPoint_model (a b : List Int) (more : List (List Int)) (c0 c1 : Nat) (
     simp [List.getD_eq_getElem?_getD, hk]
 
 theorem src_two_point_crossover (a b : List Int) (more : List (List Int)) (fit rank : List Int)
-    (c0 c1 : Nat) (key u : Int) (urest : List Int) (hab : b.length = a.length) :
-    two_point_crossover (a :: b :: more) fit rank [(c0 : Int), (c1 : Int)] key (u :: urest) =
+    (c0 c1 : Nat) (key u : Int) (urest : List Int) (hab : b.length = a.length)
+    (sampler : Int → Int → Bool → Nat → List Int)
+    (hsm : sampler (a.length : Int) 2 false 0 = [(c0 : Int), (c1 : Int)]) :
+    two_point_crossover (a :: b :: more) fit rank key (u :: urest) sampler =
       some (BinOps.twoPoint (a :: b :: more) c0 c1 (decide (u < key))) := by
   unfold two_point_crossover
   have g0 : ∀ (x : Int) l, geti (x :: l) ((0 : Nat) : Int) = x := fun _ _ => rfl
@@ -275,7 +281,7 @@ theorem src_two_point_crossover (a b : List Int) (more : List (List Int)) (fit r
   have gc1 : geti [lo, hi] (1 : Int) = hi := rfl
   by_cases hc : u < key
   · simp only [hc, decide_true, if_true] at hAget
-    simp only [g0, r0, r1, hc, decide_true, if_true, leni, hs]
+    simp only [g0, r0, r1, hc, decide_true, if_true, leni, hsm, hs]
     refine forRange_elim
       (P := fun k (s : two_point_crossover.S) => s.brk = false ∧ s.err = false ∧ s.dry = false ∧
         s.c_points = [lo, hi] ∧ s.other_individ = b ∧ s.offspring = A.take k ++ a.drop k)
@@ -299,7 +305,7 @@ theorem src_two_point_crossover (a b : List Int) (more : List (List Int)) (fit r
     · intro s ⟨_, he, hd, _, _, ht⟩
       simp [he, hd, ht, ← hAlen]
   · simp only [hc, decide_false, Bool.false_eq_true, if_false] at hAget
-    simp only [g0, r0, r1, hc, decide_false, Bool.false_eq_true, if_false, leni, hs]
+    simp only [g0, r0, r1, hc, decide_false, Bool.false_eq_true, if_false, leni, hsm, hs]
     have hAlen' : A.length = b.length := by omega
     refine forRange_elim
       (P := fun k (s : two_point_crossover.S) => s.brk = false ∧ s.err = false ∧ s.dry = false ∧
